@@ -13,6 +13,8 @@ MEMBER_TYPES = [
     ("int", {"type": "integer"}, "i64", "int"),
     ("int32", {"type": "integer", "format": "int32"}, "i32", "int"),
     ("int64", {"type": "integer", "format": "int64"}, "i64", "int"),
+    ("uint64", {"type": "integer", "format": "uint64"}, "u64", "uint"),
+    ("uint32", {"type": "integer", "format": "uint32"}, "u32", "uint"),
     ("number", {"type": "number"}, "float", "num"),
     ("bool", {"type": "boolean"}, "bool", "bool"),
     ("enum", {"type": "string", "enum": ["x", "y", "z"]}, "other", "enum"),
@@ -24,6 +26,7 @@ MEMBER_TYPES = [
 DEFAULTS = {
     "str": ["hello", "", "a \"q\" b", "12"],
     "int": [7, 0, -3, 2147483648, "12", "-5"],
+    "uint": [7, 0, 4294967295, 4294967296, 9223372036854775808, 18446744073709551615, -1, "12"],
     "num": [1.5, 2, -0.25],
     "bool": [True, False, "yes"],
     "enum": ["y", "z"],
@@ -145,6 +148,54 @@ def twin_defaults_part(viol):
         if got != w:
             viol.append(({"twin": True, "spec": spec}, f"inline objects of the same shape with different defaults: decoding empty members yields {json.dumps(got)}, the schemas' defaults are {json.dumps(w)}"))
     return 2
+
+
+def param_defaults_part(viol):
+    """parameters are members of the request's query / header structs: their defaults (default / const / single-value
+    enum; required or optional) are the values of the struct's Default and are written on encoding"""
+    P = lambda n, w, sc, req=False: {"name": n, "in": w, "required": req, "schema": sc}
+    spec = {"openapi": "3.1.0", "info": {"title": "t", "version": "1"}, "paths": {"/search": {"get": {"operationId": "search", "parameters": [
+        P("q", "query", {"type": "string"}, True), P("api-version", "query", {"type": "string", "enum": ["2024-01"]}, True), P("format", "query", {"type": "string", "const": "json"}, True),
+        P("page", "query", {"type": "integer", "default": 1}, True), P("exact", "query", {"type": "boolean", "default": True}, True),
+        P("big", "query", {"type": "integer", "format": "uint64", "default": 18446744073709551615}, True),
+        P("limit", "query", {"type": "integer", "format": "int32", "default": 20}), P("sort", "query", {"type": "string", "default": "name"}), P("ratio", "query", {"type": "number", "default": 0.5}),
+        P("X-Mode", "header", {"type": "string", "default": "fast"}), P("X-Ver", "header", {"type": "string", "const": "v1"}, True), P("X-Plain", "header", {"type": "string"})],
+        "responses": {"204": {"description": "n"}}}}}, "components": {"schemas": {}}}
+    d = vlib.scratch("C17p")
+    sp = os.path.join(d, "spec.json")
+    json.dump(spec, open(sp, "w"))
+    outs = []
+    for mode in ("client-mod", "server-mod"):
+        outp = os.path.join(d, mode)
+        rc, txt = vlib.oas(["generate", mode, "-i", sp, "-o", outp, "-q"])
+        if rc != 0:
+            viol.append(({"params": True, "spec": spec}, f"parameter-defaults spec: {mode} generation failed {txt[-200:]}"))
+            return 0
+        outs.append(outp)
+    ar = arena.Arena("C17p")
+    ar.add_case(0, outs[0])
+    ar.add_case(1, outs[1])
+    ar.write_main('''fn main() {
+    let q = case_0::SearchRequestQuery::default();
+    println!("{:?}", q);
+    println!("{}", serde_json::to_string(&q).unwrap());
+    println!("{:?}", case_0::SearchRequestHeader::default());
+    println!("{:?}", case_1::SearchRequestHeader::default());
+}
+''')
+    ok, diags, err = ar.cargo("build")
+    if not ok:
+        viol.append(({"params": True, "spec": spec}, f"parameter-defaults spec does not compile: {(diags[0]['message'] if diags else err)[:300]}"))
+        return 0
+    rc, out_, errp = ar.run("")
+    want = ['SearchRequestQuery { q: "", api_version: "2024-01", format: "json", page: 1, exact: true, big: 18446744073709551615, limit: Some(20), sort: Some("name"), ratio: Some(0.5) }',
+            '{"q":"","api-version":"2024-01","format":"json","page":1,"exact":true,"big":18446744073709551615,"limit":20,"sort":"name","ratio":0.5}',
+            'SearchRequestHeader { x_mode: Some("fast"), x_ver: "v1", x_plain: None }', 'SearchRequestHeader { x_mode: Some("fast"), x_ver: "v1", x_plain: None }']
+    got = out_.strip().split("\n")
+    for w, g in zip(want, got + [""] * 4):
+        if w != g:
+            viol.append(({"params": True, "spec": spec}, f"parameter defaults: the request's parameter struct gives {g!r}, the declared defaults give {w!r}"))
+    return len(want)
 
 
 def main(tier, seed, replay=None):
@@ -277,9 +328,11 @@ fn main() {
                         viol.append((c, f"member {c['type']} default {d!r} required={c['required']}: {how} yields m={v!r}"))
     # ---- two inline objects of the same shape whose members carry DIFFERENT defaults (they must not share a type)
     n_twin = twin_defaults_part(viol)
-    res.counts.update({"evaluations": len(cases), "twin_default_observations": n_twin, "distinct_nontrivial": n_obs, "traces_validated_against_impl": len(cases),
+    # ---- parameters with defaults (query / header structs of a request, client and server side)
+    n_par = param_defaults_part(viol)
+    res.counts.update({"evaluations": len(cases), "twin_default_observations": n_twin, "parameter_default_observations": n_par, "distinct_nontrivial": n_obs, "traces_validated_against_impl": len(cases),
                        "exhaustive": True,
-                       "rule": "exhaustive over 11 member types x default values of every JSON type (matching, string-encoded, null) x {required, optional} x {builders on, off} (+ const and single-value enum members, required and optional; int8 overflow): #[default(..)] expression read back with syn vs the extracted coercion model; every case compiled in the arena and observed three ways: decode of {} , T::default(), T::builder().build()"})
+                       "rule": "exhaustive over 13 member types (incl. uint32 / uint64 with defaults up to 2^64-1) x default values of every JSON type (matching, string-encoded, null) x {required, optional} x {builders on, off} (+ const and single-value enum members, required and optional; int8 overflow): #[default(..)] expression read back with syn vs the extracted coercion model; every case compiled in the arena and observed three ways: decode of {} , T::default(), T::builder().build(); plus twin inline objects with different defaults and the Default / encoding of a request's query and header parameter structs (required and optional parameters with default / const / single-value enum)"})
     for c in cases[:2] + cases[60:62]:
         res.sample({k: c[k] for k in ("type", "d", "required", "builders")})
     res.oblige(f"correspondence: model literal = emitted #[default(..)] on {len(cases)} members", not dis, dis[0] if dis else "")
